@@ -5,6 +5,7 @@ import "strconv"
 // rng is splitmix64: tiny, seedable, identical everywhere.
 type rng struct{ s uint64 }
 
+//go:norace
 func (r *rng) next() uint64 {
 	r.s += 0x9e3779b97f4a7c15
 	z := r.s
@@ -13,6 +14,7 @@ func (r *rng) next() uint64 {
 	return z ^ (z >> 31)
 }
 
+//go:norace
 func (r *rng) intn(n int) int {
 	if n <= 1 {
 		return 0
@@ -20,6 +22,7 @@ func (r *rng) intn(n int) int {
 	return int(r.next() % uint64(n))
 }
 
+//go:norace
 func mixSeed(a, b, c uint64) uint64 {
 	r := rng{s: a ^ (b * 0x9e3779b97f4a7c15) ^ (c * 0xc2b2ae3d27d4eb4f)}
 	r.next()
@@ -38,11 +41,15 @@ type Tape struct {
 	isRep  bool
 }
 
+//go:norace
 func NewTape(seed uint64) *Tape { return &Tape{r: rng{s: seed}} }
 
+//go:norace
 func ReplayTape(vals []uint32) *Tape { return &Tape{replay: vals, isRep: true} }
 
 // DrawWith returns a value in [0,n); gen shapes the distribution in generate mode.
+//
+//go:norace
 func (t *Tape) DrawWith(n int, gen func(r *rng) int) int {
 	if n <= 1 {
 		return 0
@@ -67,9 +74,13 @@ func (t *Tape) DrawWith(n int, gen func(r *rng) int) int {
 }
 
 // Draw is uniform on [0,n).
+//
+//go:norace
 func (t *Tape) Draw(n int) int { return t.DrawWith(n, func(r *rng) int { return r.intn(n) }) }
 
 // Range is uniform on [lo,hi].
+//
+//go:norace
 func (t *Tape) Range(lo, hi int) int {
 	if hi <= lo {
 		return lo
@@ -78,6 +89,8 @@ func (t *Tape) Range(lo, hi int) int {
 }
 
 // Chance is true with probability num/den; replay value 0 means false.
+//
+//go:norace
 func (t *Tape) Chance(num, den int) bool {
 	return t.DrawWith(2, func(r *rng) int {
 		if r.intn(den) < num {
@@ -88,6 +101,8 @@ func (t *Tape) Chance(num, den int) bool {
 }
 
 // Pick chooses an index with the given weights; index 0 is the boring choice.
+//
+//go:norace
 func (t *Tape) Pick(weights ...int) int {
 	return t.DrawWith(len(weights), func(r *rng) int {
 		tot := 0
@@ -105,6 +120,7 @@ func (t *Tape) Pick(weights ...int) int {
 	})
 }
 
+//go:norace
 func (t *Tape) String() string {
 	b := make([]byte, 0, len(t.Rec)*2)
 	for i, v := range t.Rec {
@@ -127,6 +143,7 @@ type schedChooser struct {
 	preemptBudget int
 }
 
+//go:norace
 func (c *schedChooser) Choose(kind string, n int) int {
 	switch kind {
 	case "task":
